@@ -56,6 +56,25 @@ def scatter_mean(values, cells, npoints):
     return out / np.maximum(cnt, 1.0).reshape(-1, *([1] * len(shape)))
 
 
+def own_F(u, X, cells, region, kind):
+    """Own deformation gradient at the quadrature points, (i, j, q, c), of the displacements ``u`` (copies of the point values) on the
+    cells ``cells`` over the point coordinates ``X``: H = sum_a u_a (x) dh_a/dX from the region's shape-function gradients alone, without
+    the field (its gather, its gradient, its extract): a plain field has the dim x dim gradient, plane strain pads it to 3x3 with a
+    zero row / column, an axisymmetric field (coordinates z, r) has H_33 = u_r / R with both interpolated by the shape functions
+    (fourth audit: the reference had been ``FieldContainer.extract()`` of the field class under test)."""
+    u, X, cells = np.asarray(u, float), np.asarray(X, float), np.asarray(cells)
+    dhdX = np.asarray(region.dhdX)
+    dhdX = np.broadcast_to(dhdX, dhdX.shape[:3] + (len(cells),))
+    H = np.einsum("cai,ajqc->ijqc", u[cells], dhdX)
+    if kind == "axisymmetric":
+        h = np.asarray(region.h).reshape(dhdX.shape[0], dhdX.shape[2])  # shape functions at the quadrature points, (a, q)
+        H = np.pad(H, ((0, 1), (0, 1), (0, 0), (0, 0)))
+        H[2, 2] = np.einsum("ca,aq->qc", u[cells][:, :, 1], h) / np.einsum("ca,aq->qc", X[cells][:, :, 1], h)
+    elif kind not in ("plane2d", "multibody") and u.shape[1] == 2:
+        H = np.pad(H, ((0, 1), (0, 1), (0, 0), (0, 0)))  # plane strain
+    return H + np.eye(H.shape[0]).reshape(H.shape[0], H.shape[0], 1, 1)
+
+
 class scratch:
     """Scratch directory outside /repo and /verif; cwd is moved there (meshio's TimeSeriesWriter puts the .h5 next to cwd)."""
 
@@ -90,6 +109,9 @@ def case_roundtrip(name):
         m = all_meshes()[name]
         m = m.copy(points=m.points + 0.05 * rng.uniform(-1, 1, m.points.shape))  # non-trivial coordinates
         cells0 = np.array(m.cells).copy()  # what the caller built (the file is judged against this, not against the mesh after writing)
+        # fourth audit: the same for the coordinates and the cell type (a writer that rounds / scales the caller's points in place had
+        # been judged against the points it had just changed)
+        pts0, type0, dim0 = np.array(m.points).copy(), str(m.cell_type), int(m.dim)
         with scratch() as d:
             for ext, writer in [(e, w) for e in ("vtk", "vtu", "xdmf") for w in ("write", "save")]:
                 fn_ = os.path.join(d, "%s_%s.%s" % (name, writer, ext))
@@ -108,17 +130,26 @@ def case_roundtrip(name):
                     run.fail("files.mesh", "celltype=%s format=%s clause=roundtrip-readable" % (name, ext),
                              "a %s mesh written as %s cannot be read back (%s: %s)" % (name, ext, type(exc).__name__, str(exc)[:200]))
                     continue
-                ok = (len(mc.meshes) == 1 and m2.cell_type == m.cell_type and np.array_equal(m2.cells, m.cells)
-                      and m2.points.shape == m.points.shape and np.array_equal(m2.points, m.points))
-                ok_raw = np.array_equal(raw.points[:, : m.dim], m.points) and (raw.points.shape[1] == m.dim or maxabs(raw.points[:, m.dim:]) == 0)
+                ok = (len(mc.meshes) == 1 and m2.cell_type == type0 and np.array_equal(m2.cells, cells0)
+                      and m2.points.shape == pts0.shape and np.array_equal(m2.points, pts0))
+                ok_raw = (raw.points.shape[0] == pts0.shape[0] and np.array_equal(raw.points[:, :dim0], pts0)
+                          and (raw.points.shape[1] == dim0 or maxabs(raw.points[:, dim0:]) == 0))
                 if ok and ok_raw:
                     run.ok("files.mesh", unit="mesh:%s:%s" % (name, ext), config=(name, ext, writer),
-                           sample={"cell_type": name, "format": ext, "points": int(m.npoints), "cells": int(m.ncells)})
+                           sample={"cell_type": name, "format": ext, "points": int(len(pts0)), "cells": int(len(cells0))})
                 else:
                     run.fail("files.mesh", "celltype=%s format=%s clause=roundtrip%s" % (name, ext, "" if writer == "write" else " via=save"),
-                             "writing and reading back a %s mesh as %s does not give the same points, cells and cell type" % (name, ext),
-                             {"cell_type_back": m2.cell_type, "cells_equal": bool(np.array_equal(m2.cells, m.cells)),
-                              "points_equal": bool(m2.points.shape == m.points.shape and np.array_equal(m2.points, m.points))})
+                             "writing and reading back a %s mesh as %s does not give the points, cells and cell type the caller built" % (name, ext),
+                             {"cell_type_back": m2.cell_type, "cells_equal": bool(np.array_equal(m2.cells, cells0)),
+                              "points_equal": bool(m2.points.shape == pts0.shape and np.array_equal(m2.points, pts0)),
+                              "file_points_equal": bool(ok_raw)})
+                # writing is reading only: the mesh in memory is afterwards what it was before (points, cells, cell type)
+                if m.points.shape == pts0.shape and np.array_equal(m.points, pts0) and np.array_equal(m.cells, cells0) and str(m.cell_type) == type0:
+                    run.ok("files.mesh", unit="mesh:untouched-by-write", config=("untouched", name, ext, writer))
+                else:
+                    run.fail("files.mesh", "celltype=%s format=%s clause=mesh-untouched-by-write%s" % (name, ext, "" if writer == "write" else " via=save"),
+                             "%s(filename) of a %s mesh as %s changes the mesh in memory (points / cells / cell type differ from the copies taken before)" % (writer, name, ext),
+                             {"max_point_change": maxabs(m.points - pts0) if m.points.shape == pts0.shape else None})
                 # the file itself, as any other reader sees it (not through felupe's own read, which could undo what write did):
                 # one cell block, named by the literal cell type, holding the caller's connectivity
                 if len(raw.cells) == 1 and raw.cells[0].type == name and np.array_equal(np.asarray(raw.cells[0].data), cells0):
@@ -152,11 +183,24 @@ def case_container(rep):
         with scratch() as d:
             r = fem.Rectangle(n=(3, 3))
             t = fem.Rectangle(a=(1, 0), b=(2, 1), n=(3, 3)).triangulate()
+            # non-trivial coordinates (fourth audit: on the grid k / 2 a writer that rounds the points is not seen): one smooth map of the
+            # plane applied to both meshes, so that the points of the common edge stay the same numbers and are merged
+            ka, kb = rng_for(run.seed, "C20", "container-map", rep).uniform(0.5, 2.0, (2, 2))
+            bend = lambda X: X + 0.03 * np.stack([np.sin(ka[0] * X[:, 0] + ka[1] * X[:, 1]), np.cos(kb[0] * X[:, 0] - kb[1] * X[:, 1])], axis=1)
+            r, t = r.copy(points=bend(r.points)), t.copy(points=bend(t.points))
             cont = fem.MeshContainer([r, t], merge=True)
+            if len(cont.points) == 9 + 9 - 3:
+                run.ok("files.container", unit="container:merged-count")
+            else:
+                run.fail("files.container", "clause=container-merge-count", "MeshContainer(merge=True) of two 3x3 grids with a common edge: %d points, expected 15" % len(cont.points))
             if cont.meshes[0].points is cont.meshes[1].points and cont.meshes[0].points is cont.points:
                 run.ok("files.container", unit="container:shared-points")
             else:
                 run.fail("files.container", "clause=container-merge-shares-points", "MeshContainer(merge=True): meshes do not refer to one point array")
+            # whole cells (corner order kept) as a set; those of the container are taken before anything is written (fourth audit: the
+            # reference had been the container's meshes after as_meshio().write())
+            rows = lambda mm: (lambda a: a[np.lexsort(a.T[::-1])])(np.round(mm.points[mm.cells].reshape(len(mm.cells), -1), 12))
+            rows0 = {m_.cell_type: rows(m_) for m_ in cont.meshes}
             for ext in ("vtk", "vtu", "xdmf"):
                 fn_ = os.path.join(d, "cont." + ext)
                 cont.as_meshio().write(fn_)
@@ -174,9 +218,8 @@ def case_container(rep):
                             run.fail("files.container", "format=%s clause=read-merge-shares-points" % ext,
                                      "mesh.read(merge=True): the meshes do not refer to one shared point array")
                     for m in mc.meshes:
-                        ref = cont.meshes[0] if m.cell_type == "quad" else cont.meshes[1]
-                        rows = lambda mm: (lambda a: a[np.lexsort(a.T[::-1])])(np.round(mm.points[mm.cells].reshape(len(mm.cells), -1), 12))
-                        same = m.cells.shape == ref.cells.shape and np.array_equal(rows(m), rows(ref))  # whole cells (corner order kept) as a set
+                        ref = rows0["quad" if m.cell_type == "quad" else "triangle"]
+                        same = rows(m).shape == ref.shape and np.array_equal(rows(m), ref)
                         if same:
                             run.ok("files.container", unit="read:cell-geometry", config=("read", ext, merge))
                         else:
@@ -279,6 +322,8 @@ def case_container3d(rep):
             for k, (m, ref) in enumerate(zip(cont.meshes, parts)):
                 run.compare("files.container", "clause=container-merge-corners block=%d" % k, maxabs(m.points[m.cells] - ref.points[ref.cells]), 10.0 ** (-dec_build),
                             "merging moved a cell corner by more than the tolerance", unit="container3d:corners")
+            # corner coordinates of the cells of every cell type, taken before anything is written
+            corners0 = {ct: np.concatenate([r_.points[r_.cells] for r_ in cont.meshes if r_.cell_type == ct], axis=0).copy() for ct in ("hexahedron", "tetra")}
             for ext in ("vtu", "xdmf"):
                 fn_ = os.path.join(d, "c3." + ext)
                 cont.as_meshio().write(fn_)
@@ -293,7 +338,7 @@ def case_container3d(rep):
                     else:
                         run.fail("files.container", "format=%s decimals=%s clause=read-merge-shares-points" % (ext, dec), "read(merge=True, decimals=): blocks do not share one point array")
                     for m in mc.meshes:
-                        refc = np.concatenate([r_.points[r_.cells] for r_ in cont.meshes if r_.cell_type == m.cell_type], axis=0)
+                        refc = corners0[m.cell_type]
                         tol = 0.0 if dec is None else 10.0 ** (-dec)
                         if refc.shape != m.points[m.cells].shape:
                             run.fail("files.container", "format=%s decimals=%s clause=cell-count[3 blocks]" % (ext, dec), "number of cells read back differs")
@@ -317,7 +362,7 @@ def build_job(rng, kind, fam, extras=()):
     """(container whose values are written, boundaries, items, mesh of that container, x0 to hand over or None)"""
     import felupe as fem
     if kind not in ("plane2d", "multibody"):
-        field, bounds, lc, items, mesh = C07.build(rng, kind, fam, "NeoHooke", extras)
+        field, bounds, lc, items, mesh = C07.build(rng, kind, fam, "NeoHooke", extras)[:5]  # (a later C07.build hands a sixth value, its own shadow)
         return field, bounds, items, mesh, None
     mesh, L = problems.box_mesh(fam, rng)
     mk = lambda m_: fem.FieldContainer([fem.Field(gen.make_region(fam, m_), dim=m_.dim)])  # plain fields: dim x dim deformation gradient
@@ -438,8 +483,10 @@ def evaluate_and_judge(run, mon, ys, job, fname, opts, J):
             if pflag and cflag:
                 run.fail("files.job", "clause=default-data-present", "%s: frame %d lacks the default data %s" % (label, k, sorted(missing)))
             continue
-        F0 = type(field[0])(reg, dim=u.shape[1], values=u)
-        Fq = fem.FieldContainer([F0]).extract()[0]
+        # deformation gradient of the recorded displacements from the shape-function gradients alone (fourth audit: the reference of
+        # the cell data had been FieldContainer.extract() of the field class that the job itself uses for these data; a wrong radius
+        # of the axisymmetric field was in both)
+        Fq = own_F(u, J["X"], J["cells"], reg, kind)
         if pflag:
             run.compare("files.job", "clause=frame-displacement", maxabs(pd["Displacement"] - u3), 0.0,
                         "%s: 'Displacement' of frame %d differs from the field of converged substep %d" % (label, k, k),
@@ -476,7 +523,9 @@ def evaluate_and_judge(run, mon, ys, job, fname, opts, J):
                          "%s: %s principal values per cell for a %dx%d deformation gradient" % (label, gotp.shape[1:], Fq.shape[0], Fq.shape[0]))
         if custom:
             run.compare("files.job", "clause=custom-point-data", maxabs(pd["Twice"] - 2 * u3), 0.0, "%s: custom point data differ" % label, unit="job:custom-data")
-            Jm = np.linalg.det(np.moveaxis(Fq, (0, 1), (-2, -1))).mean(0)
+            # the caller's callback calls field.extract() itself: what it returns is what extract() gives for the recorded values
+            F0 = type(field[0])(reg, dim=u.shape[1], values=u)
+            Jm = np.linalg.det(np.moveaxis(fem.FieldContainer([F0]).extract()[0], (0, 1), (-2, -1))).mean(0)
             run.compare("files.job", "clause=custom-cell-data", maxabs(np.asarray(cd["Volume Ratio"][0]).ravel() - Jm), 1e-14, "%s: custom cell data differ" % label,
                         unit="job:custom-data")
             # callbacks that read the substep they are given: residual and iteration count of the yielded result of that frame
@@ -577,7 +626,7 @@ def case_job(rep, more=False):
                     opts["mesh"] = meshio.Mesh(points.copy(), {mesh.cell_type: np.array(mesh.cells).copy()})
                 label = "job %s%d (%s/%s, %d steps%s)" % ("x" if more else "", rep, kind, fam, len(steps), ", injected failure" if inject else "")
                 J = dict(label=label, field=field, kind=kind, fam=fam, nsteps=nsteps, total=total, inject=inject, fail_at=fail_at, pflag=not nodefaults, cflag=not nodefaults,
-                         pdata=pdata, cdata=cdata, custom=custom, points=np.array(points).copy(), cells=np.array(mesh.cells).copy(), cell_type=str(mesh.cell_type), mesh_given=given)
+                         pdata=pdata, cdata=cdata, custom=custom, points=np.array(points).copy(), cells=np.array(mesh.cells).copy(), X=np.array(mesh.points).copy(), cell_type=str(mesh.cell_type), mesh_given=given)
                 if evaluate_and_judge(run, mon, ys, job, "result.xdmf", opts, J):
                     for tag in tags:  # the special shapes of this job count where frames were judged
                         run.units[tag] += 1
@@ -613,7 +662,7 @@ def case_flags(rep):
                     pdata, cdata = custom_data(fem, mesh.ncells) if custom else (None, None)
                     label = "flags %d (%s/%s, point_data_default=%s, cell_data_default=%s%s)" % (rep, kind, fam, pflag, cflag, ", custom data" if custom else "")
                     J = dict(label=label, field=field, kind=kind, fam=fam, nsteps=1, total=2, inject=False, fail_at=None, pflag=pflag, cflag=cflag, pdata=pdata, cdata=cdata,
-                             custom=custom, points=np.array(mesh.points).copy(), cells=np.array(mesh.cells).copy(), cell_type=str(mesh.cell_type), mesh_given=False)
+                             custom=custom, points=np.array(mesh.points).copy(), cells=np.array(mesh.cells).copy(), X=np.array(mesh.points).copy(), cell_type=str(mesh.cell_type), mesh_given=False)
                     if evaluate_and_judge(run, mon, ys, job, "flags%d.xdmf" % n, dict(point_data_default=pflag, cell_data_default=cflag), J):
                         run.units["job:flags:%s:%s" % (pflag, cflag)] += 1
         finally:
@@ -631,7 +680,7 @@ def case_save(rep, more=False):
         import meshio
         rng = rng_for(run.seed, "C20", "savex" if more else "save", rep)
         kind, fam = SAVES_MORE[rep % len(SAVES_MORE)] if more else SAVES[rep % 6]
-        field, bounds, lc, items, mesh = C07.build(rng, kind, fam, "NeoHooke", ())
+        field, bounds, lc, items, mesh = C07.build(rng, kind, fam, "NeoHooke", ())[:5]
         # unit systems: the same law with its moduli scaled (stresses and forces of 1e-9 .. 1e6): what is written is what was handed
         # over / computed, whatever its magnitude (all clauses below are exact or relative to the largest entry)
         scale = [1.0, 1e-9, 1e6][(rep + rep // 6) % 3]
@@ -641,20 +690,43 @@ def case_save(rep, more=False):
             run.units["save:stress-scale:%g" % scale] += 1
         res = fem.newtonrhapson(items=items, verbose=False, **lc)
         run.units["save:kind:" + kind] += 1
+        # what the caller hands over, as copies taken before any call of save (fourth audit: the expectation had been the very arrays
+        # handed to the call and the field / mesh read after it, and save works on views of them: a sign flipped in place through the
+        # np.split view is in the file and in the "expected" array alike)
+        f0 = np.array(res.fun, dtype=float).ravel().copy()
+        u = np.array(res.x[0].values, dtype=float).copy()
+        xs0 = [np.array(f_.values).copy() for f_ in res.x.fields]
+        p0, c0, t0, dim0 = np.array(mesh.points).copy(), np.array(mesh.cells).copy(), str(mesh.cell_type), int(mesh.dim)
+
+        def untouched(forces, what, ext):
+            # save() reads its arguments: forces, field values and mesh are afterwards what the caller handed over
+            same = (np.array_equal(np.asarray(forces).ravel(), f0) and all(np.array_equal(f_.values, x_) for f_, x_ in zip(res.x.fields, xs0))
+                    and np.array_equal(mesh.points, p0) and np.array_equal(mesh.cells, c0))
+            if same:
+                run.ok("files.save", unit="save:arguments-untouched", config=("save-untouched", what, ext, kind))
+            else:
+                run.fail("files.save", "format=%s clause=arguments-untouched call=%s" % (ext, what),
+                         "save(%s): the caller's arrays (forces / field values / mesh) are changed by the call" % what,
+                         {"forces": maxabs(np.asarray(forces).ravel() - f0) if np.size(forces) == f0.size else None, "values": maxabs(res.x[0].values - u),
+                          "points": maxabs(mesh.points - p0) if mesh.points.shape == p0.shape else None})
         with scratch() as d:
             for ext in ("vtu", "xdmf"):  # the legacy vtk writer refuses field names with spaces ('Reaction Force'): loud
                 fn_ = os.path.join(d, "result." + ext)
-                forces = np.asarray(res.fun).copy()
+                forces = f0.reshape(np.shape(res.fun)).copy()  # a fresh array for every format: what a call does to it stays with that call
                 # (3,3) tensor point data cannot be re-read by meshio's vtu reader: the clause is about displacements / forces
                 fem.tools.save(field.region, res.x, forces=forces, filename=fn_)
                 back = meshio.read(fn_)
-                u = res.x[0].values
-                run.compare("files.save", "format=%s clause=displacements" % ext, maxabs(back.point_data["Displacements"] - u), 0.0,
+                gotu, gotf = np.asarray(back.point_data["Displacements"]), np.asarray(back.point_data["Reaction Force"])
+                run.compare("files.save", "format=%s clause=displacements" % ext, maxabs(gotu - u) if gotu.shape == u.shape else np.inf, 0.0,
                             "save(): displacements in the file differ from the given field", unit="save:displacements", config=("save", ext, fam))
-                run.compare("files.save", "format=%s clause=reaction-forces" % ext, maxabs(back.point_data["Reaction Force"] - forces[: u.size].reshape(u.shape)), 0.0,
+                run.compare("files.save", "format=%s clause=reaction-forces" % ext, maxabs(gotf - f0[: u.size].reshape(u.shape)) if gotf.shape == u.shape else np.inf, 0.0,
                             "save(): reaction forces in the file differ from the given forces", unit="save:forces", config=("save-forces", ext, fam))
-                if not np.array_equal(back.points[:, : mesh.dim], mesh.points) or not np.array_equal(back.cells[0].data, mesh.cells) or back.cells[0].type != mesh.cell_type:
+                if (back.points.shape[0] != p0.shape[0] or not np.array_equal(back.points[:, :dim0], p0) or maxabs(back.points[:, dim0:]) != 0 or len(back.cells) != 1
+                        or not np.array_equal(back.cells[0].data, c0) or back.cells[0].type != t0):
                     run.fail("files.save", "format=%s clause=mesh" % ext, "save(): mesh in the file differs")
+                else:
+                    run.ok("files.save", unit="save:mesh", config=("save-mesh", ext, fam))
+                untouched(forces, "forces=", ext)
                 # per-cell data of the caller (cell_data=, one array per cell block) are written unchanged next to the point data
                 marker = rng.uniform(-1, 1, mesh.ncells)
                 fn5 = os.path.join(d, "cells." + ext)
@@ -662,7 +734,8 @@ def case_save(rep, more=False):
                 try:
                     b5 = meshio.read(fn5)
                     gotm = np.asarray(b5.cell_data["Marker"][0]).ravel()
-                    run.compare("files.save", "format=%s clause=user-cell-data" % ext, max(maxabs(gotm - marker) if gotm.shape == marker.shape else np.inf, maxabs(b5.point_data["Displacements"] - res.x[0].values)), 0.0,
+                    run.compare("files.save", "format=%s clause=user-cell-data" % ext, max(maxabs(gotm - marker) if gotm.shape == marker.shape else np.inf, maxabs(b5.point_data["Displacements"] - u),
+                                                                                                 maxabs(np.asarray(b5.point_data["Reaction Force"]) - f0[: u.size].reshape(u.shape))), 0.0,
                                 "save(cell_data=...): the caller's cell data (or the displacements next to them) are not written unchanged", unit="save:cell-data", config=("save-cell-data", ext, fam))
                 except (Exception, SystemExit) as exc:
                     run.fail("files.save", "format=%s clause=user-cell-data" % ext, "save(cell_data=...): the cell data are not in the file or it cannot be read back (%s: %s)" % (type(exc).__name__, str(exc)[:100]))
@@ -672,6 +745,7 @@ def case_save(rep, more=False):
                 if u.shape[1] == 3:
                     pd_user["ShiftedTensor"] = rng.standard_normal((mesh.npoints, 3, 3))
                 keys0 = sorted(pd_user)
+                user0 = {k_: np.array(v_).copy() for k_, v_ in pd_user.items()}  # the caller's data before the calls
                 fn3, fn4 = os.path.join(d, "user_a." + ext), os.path.join(d, "user_b." + ext)
                 fem.tools.save(field.region, res.x, forces=forces, point_data=pd_user, filename=fn3)
                 fem.tools.save(field.region, res.x, point_data=pd_user, filename=fn4)
@@ -687,14 +761,22 @@ def case_save(rep, more=False):
                 else:
                     run.compare("files.save", "format=%s clause=displacements[with user data]" % ext, maxabs(b3.point_data["Displacements"] - u), 0.0,
                                 "save(point_data=...): displacements differ", unit="save:user-data")
-                    run.compare("files.save", "format=%s clause=user-point-data" % ext, maxabs(np.asarray(b3.point_data["Temperature"]).ravel() - pd_user["Temperature"]), 0.0,
+                    run.compare("files.save", "format=%s clause=user-point-data" % ext, maxabs(np.asarray(b3.point_data["Temperature"]).ravel() - user0["Temperature"]), 0.0,
                                 "save(point_data=...): the caller's point data are not written unchanged", unit="save:user-data")
+                    # ... with the forces of this call next to them, and the tensor-valued data as their nine components, row-major
+                    run.compare("files.save", "format=%s clause=reaction-forces[with user data]" % ext, maxabs(np.asarray(b3.point_data["Reaction Force"]) - f0[: u.size].reshape(u.shape)), 0.0,
+                                "save(point_data=..., forces=...): reaction forces in the file differ from the given forces", unit="save:user-data")
+                    if "ShiftedTensor" in user0:
+                        gott = np.asarray(b3.point_data["ShiftedTensor"])
+                        run.compare("files.save", "format=%s clause=user-tensor-point-data" % ext, maxabs(gott.reshape(len(gott), -1) - user0["ShiftedTensor"].reshape(len(u), 9)) if gott.size == 9 * len(u) else np.inf, 0.0,
+                                    "save(point_data=<(npoints, 3, 3) array>): the components in the file are not the caller's (row-major)", unit="save:user-tensor-data", config=("save-tensor", ext, fam))
                     if "Reaction Force" in b4.point_data:
                         run.fail("files.save", "format=%s clause=only-the-given-data" % ext, "save() without forces writes the reaction forces of an earlier call (taken from the caller's dictionary)")
                     else:
                         run.ok("files.save", unit="save:user-data")
                 # the documented call with the stress handed over as well: the file stays readable, displacements and forces are
                 # unchanged and the stress point data are P F^T / det F shifted to the points
+                untouched(forces, "cell_data=, point_data=", ext)
                 nq, ppc = field.region.quadrature.npoints, mesh.cells.shape[1]
                 if 1 < nq < ppc:
                     # fewer quadrature points than points per cell (and more than one): there is no shift of the values to the points
@@ -703,6 +785,7 @@ def case_save(rep, more=False):
                 fn2 = os.path.join(d, "result_stress." + ext)
                 solid = items[0]
                 grad_ = solid.evaluate.gradient(res.x)
+                P = np.array(grad_[0], dtype=float).copy()  # the stress handed over, before the call
                 fem.tools.save(field.region, res.x, forces=forces, gradient=grad_, filename=fn2)
                 try:
                     back2 = meshio.read(fn2)
@@ -712,8 +795,11 @@ def case_save(rep, more=False):
                     continue
                 run.compare("files.save", "format=%s clause=displacements[with stress]" % ext, maxabs(back2.point_data["Displacements"] - u), 0.0,
                             "save(gradient=...): displacements in the file differ from the given field", unit="save:with-stress", config=("save-stress", ext, fam))
-                Fq = res.x.extract()[0]
-                P = np.asarray(grad_[0], float)
+                run.compare("files.save", "format=%s clause=reaction-forces[with stress]" % ext, maxabs(np.asarray(back2.point_data["Reaction Force"]) - f0[: u.size].reshape(u.shape)), 0.0,
+                            "save(gradient=...): reaction forces in the file differ from the given forces", unit="save:with-stress")
+                untouched(forces, "gradient=", ext)
+                # F of the given displacements from the shape-function gradients alone (save itself takes field.extract())
+                Fq = own_F(u, p0, c0, field.region, kind)
                 sig = np.einsum("ik...,jk...->ij...", P, Fq) / np.linalg.det(np.moveaxis(Fq, (0, 1), (-2, -1)))
                 # shifted to the points by an own scatter-mean over the connectivity (save itself uses the library's topoints)
                 refs = scatter_mean(sig, np.asarray(mesh.cells), mesh.npoints).reshape(mesh.npoints, 9)
@@ -769,6 +855,9 @@ def _required():
             "job:flags:True:True", "job:flags:True:False", "job:flags:False:True", "job:flags:False:False", "job:option:mesh", "job:option:x0-is-not-the-first-item",
             "job:class:CharacteristicCurve", "job:step:no-ramp", "job:step:empty-ramp", "job:evaluated-twice", "save:cell-data", "save:stress-scale:1e-09",
             "save:stress-scale:1e+06"]
+    # fourth audit (mirrored oracles): expectations are copies taken before the call (mesh round trip, container, save) and the call
+    # leaves the caller's mesh / arrays as they were; F of the frame cell data and of the saved stress from the shape-function gradients
+    req += ["mesh:untouched-by-write", "container:merged-count", "save:mesh", "save:arguments-untouched", "save:user-tensor-data"]
     return req
 
 
@@ -783,6 +872,7 @@ SPEC = {
              "flags with and without custom data; one block per mesh and read(cellblock=, dim=None, file_format=)"),
     "assumptions": ["files are re-read with meshio (read, xdmf.TimeSeriesReader); other readers are not exercised",
                     "the in-memory sequence is the one the steps yield (own recorder at Step.generate) and the one recorded at the job's callback boundary",
-                    "job files are written with the scratch directory as cwd (meshio puts the .h5 data file of a time series into the cwd)"],
+                    "job files are written with the scratch directory as cwd (meshio puts the .h5 data file of a time series into the cwd)",
+                    "the reference deformation gradient of cell data / saved stresses is built from the region's dhdX and h (shape-function gradients and values at the quadrature points), not from the field"],
     "jobs": {"quick": 8, "thorough": 16},
 }
